@@ -203,6 +203,8 @@ impl TransformerContext {
 //@end
 
 //@item src/context.rs :: impl TransformerContext :: fn push_element
+//@ requires
+//@ - el.evaluated()     @@C15.push.attributes_evaluated_in_enclosing_scope
 //@ ensures
 //@ - final(self).element_stack@ == old(self).element_stack@.push(*el)    @@C15.push.element
 //@ - final(self).scope_stack.len() == old(self).scope_stack.len() + 1    @@C15.push.scope
